@@ -4,8 +4,11 @@
 #![allow(dead_code)]
 mod common;
 mod rnum;
+mod c01;
 mod c05;
 mod c09;
+mod c14;
+mod c18;
 mod sut;
 
 use common::*;
@@ -13,8 +16,11 @@ use common::*;
 macro_rules! dispatch {
     ($id:expr, $f:ident, $($arg:expr),*) => {
         match $id {
+            "C01" => $f::<c01::C01>($($arg),*),
             "C05" => $f::<c05::C05>($($arg),*),
             "C09" => $f::<c09::C09>($($arg),*),
+            "C14" => $f::<c14::C14>($($arg),*),
+            "C18" => $f::<c18::C18>($($arg),*),
             other => {
                 eprintln!("unknown property id {}", other);
                 2
